@@ -74,3 +74,9 @@ def _late_rules(rep, repo):
     from . import fsrules
     with rep.isolated():
         fsrules.rule_always_regenerates(rep, repo, "C02-R12")
+    # the page that holds the entries is not overwritten by the directory index (a module called index.cmake)
+    with rep.isolated():
+        fsrules.rule_index_before_pages(rep, repo, "C02-R13")
+    # members of a class appear in the class entry, each once: the render loops run over the member lists themselves
+    with rep.isolated():
+        render.rule_class_rendering(rep, repo, "C02-R14")
